@@ -9,6 +9,12 @@ TB = "CPython 3.12, crosshair-tool 0.0.110, z3 5.1; the import shim of lib/repo_
 
 # id -> (category, technique, text, note, design_ref, engine)
 CHECKS = {
+    "C31": ("model_checking",
+            "solver-enumerated (CrossHair/z3) exhaustive round trip of a bounded type grammar through the real str(ty) and the real type_from_ast; symbolic display-name choices for the name-uniqueness part",
+            "Restricted: every first-order type of constructor depth <= 2 (quick, ~1000 types) / 3 (thorough) over numerics, bool, str, None, qubit, tuples, array, Option, frozenarray, plain and generic structs is printed by the real printer, "
+            "parsed by CPython and the real type parser against a real Globals and compared with ==. Types with a tuple as the only type argument are the region of a known finding and are probed separately. "
+            "Name uniqueness: generic function types whose bound/inference variables take display names from a pool with clashes.",
+            TB + "; each path is one concrete type (str/ast-shaped data)", "DESIGN.md §5 C31", "E1"),
     "C08": ("translation_validation",
             "real check() verdict per program (concrete) vs. a definedness / type path oracle run by CrossHair/z3 over symbolic branch-decision vectors (one vector for definedness, two for type conflicts), with solver-produced witnesses for every rejection",
             "Restricted: the solver ranges over paths and pairs of paths; the real checker runs concretely on a generated corpus (70 quick / 1200 thorough + 13 fixed; assignments of int/bool/float/tuple and copies, generic reads, "
